@@ -51,6 +51,28 @@ LeafBad == {"La4port",       \* address-qualified, right address, other port
             "OL",            \* over-long field (hundreds of characters)
             "CT",            \* control bytes in the name
             "NA"}            \* non-ASCII bytes in the name
+(* ADDRESS SPELLING classes: address-qualified names whose address field is some   *)
+(* other way of writing the LIVE peer endpoint (right port, recognised suffix).     *)
+(* The documented grammar of the address field (fs_auth.go, fsAddrLeaf) is "an IP   *)
+(* address: IPv4 dotted quad or IPv6", compared with the connection's peer by       *)
+(* ADDRESS equality.  So:                                                           *)
+(*   recognised, design creates:  the canonical text of the peer (La4 / La6);       *)
+(*   recognised, may be created:  another valid IPv6 text of the SAME address --    *)
+(*       LaMap  v4-mapped IPv6 text of an IPv4 peer (::ffff:a.b.c.d, ::FFFF:..,      *)
+(*              0:0:0:0:0:ffff:a.b.c.d, ::ffff:7f00:1),                             *)
+(*       LaAlt  expanded / zero-padded text of an IPv6 peer (0:0:0:0:0:0:0:1);      *)
+(*   NOT recognised (no IP address of that grammar; must be refused):               *)
+(*       LaZone any of the above with an IPv6 zone suffix %<anything> (a zone is    *)
+(*              not part of the grammar and may carry arbitrary bytes: alnum,       *)
+(*              punctuation, control, non-ASCII, hundreds of characters),           *)
+(*       LaOdd  non-canonical numerals: leading zeros, hex / octal / decimal /      *)
+(*              short forms, brackets, trailing dot, blanks, address:port.          *)
+(* They are enumerated as the LAST component of paths of at most two components     *)
+(* (every parent class x every spelling class); elsewhere a name is only a          *)
+(* directory name and the canonical classes stand for it.                           *)
+LeafSpellMay == {"LaMap", "LaAlt"}
+LeafSpellBad == {"LaZone", "LaOdd"}
+Spell   == LeafSpellMay \cup LeafSpellBad
 Leaves  == LeafLocal \cup LeafRemote \cup LeafAddr \cup LeafBad
 Comp    == Dirs \cup Dots \cup Leaves
 
@@ -91,7 +113,8 @@ ParentIsBase(p) == Len(p) = 2 /\ p[1] = "B"        \* textual parent = the base;
 EndpointOK(l, f) == (l = "La4" /\ f = 4) \/ (l = "La6" /\ f = 6)
 
 \* shapes the statement recognises (for the connection at hand)
-Recognised(l, f) == l \in LeafLocal \cup LeafRemote \/ EndpointOK(l, f)
+SpellingMay(l, f) == (l = "LaMap" /\ f = 4) \/ (l = "LaAlt" /\ f = 6)
+Recognised(l, f) == l \in LeafLocal \cup LeafRemote \/ EndpointOK(l, f) \/ SpellingMay(l, f)
 \* shapes a LOCAL exchange (the only one reachable through the public API) creates
 ShapeOfMode(l, f) == l \in LeafLocal \/ EndpointOK(l, f)
 
@@ -113,8 +136,12 @@ CleanUp(p, acc) ==
 (* What the (possibly buggy) implementation accepts.                       *)
 ImplLeafOK(l, f) ==
   \/ ShapeOfMode(l, f)
-  \/ "PrefixOnlyLeaf" \in Bug /\ l \in Leaves          \* every class here starts with FS_ in some concretisation
-  \/ "SkipEndpoint" \in Bug /\ l \in LeafAddr \cup {"La4port", "La4ip"}
+  \/ "PrefixOnlyLeaf" \in Bug /\ l \in Leaves \cup Spell   \* every class here starts with FS_ in some concretisation
+  \/ "SkipEndpoint" \in Bug /\ l \in LeafAddr \cup {"La4port", "La4ip"} \cup LeafSpellMay
+  \* known wrong design: the address field is canonicalised by a parser that admits a zone
+  \* suffix and drops it (netip.ParseAddr + Unmap): a v4-mapped text of the peer with ANY
+  \* bytes after '%' compares equal to the peer
+  \/ "ZoneSuffixAccepted" \in Bug /\ l = "LaZone" /\ f = 4
 ImplAccepts ==
   LET p == IF "SkipClean" \in Bug THEN CleanUp(path, <<>>) ELSE path IN
   /\ ~huge
@@ -130,6 +157,7 @@ WhereCreated ==
 
 -----------------------------------------------------------------------------
 Paths == UNION {[1..n -> Comp] : n \in 0..MaxLen}
+           \cup {<<l>> : l \in Spell} \cup {<<c, l>> : c \in Comp, l \in Spell}
 
 Init ==
   /\ role \in Roles
